@@ -155,6 +155,10 @@ Proof.
     change (256 ^ N.of_nat 8) with 18446744073709551616; unfold two64 in *; lia.
 Qed.
 
+Lemma comp_hash_input_header c :
+  comp_hash_input c = comp_hash_header (ctyp c) (N.of_nat (length (cval c))) ++ cval c.
+Proof. unfold comp_hash_input, comp_hash_header. rewrite <- app_assoc. reflexivity. Qed.
+
 (* HashInto feeds type, value length, value: the input of a component is self-delimiting ... *)
 Lemma comp_hash_input_prefix_free c d r r' : comp_wf c -> comp_wf d ->
   comp_hash_input c ++ r = comp_hash_input d ++ r' -> c = d /\ r = r'.
